@@ -365,7 +365,8 @@ pub fn shaped(rng: &mut Rng, fmt: Fmt, tag: u64) -> (Vec<u8>, &'static str) {
                 out.extend_from_slice(&head);
                 out.extend_from_slice(t);
                 let nl = match kind {
-                    1 => 200 + rng.below(3000),
+                    // now and then more lines than a 16-bit counter holds
+                    1 => if i == 0 && rng.chance(1, 25) { 65_530 + rng.below(3000) } else { 200 + rng.below(3000) },
                     2 => 3,
                     _ => 1 + rng.below(4),
                 };
